@@ -24,10 +24,15 @@ from . import hook  # noqa
 @hook("getattr")
 def _str_methods(i, v, name, node, fr):
     if isinstance(v, str):
-        if name == "format":
+        if name == "format" and v != "--excludes={}":
             return BoundMethod(v, lambda interp, s, a, k, n, f: "<formatted:%s>" % getattr(n, "lineno", "?"))
         if name == "join":
-            return BoundMethod(v, lambda interp, s, a, k, n, f: "<joined:%s>" % getattr(n, "lineno", "?"))
+            def _join(interp, s, a, k, n, f):
+                if len(a) == 1 and isinstance(a[0], SymList):
+                    from .fs import Joined
+                    return Joined(s, a[0])  # kept symbolic: the script passes such a list on a command line
+                return "<joined:%s>" % getattr(n, "lineno", "?")
+            return BoundMethod(v, _join)
     return NotImplemented
 
 ceil_mul = z3.Function("ceil_mul", Int, Real, Int)  # math.ceil(n * f) as ONE uninterpreted function (the float product is not re-interpreted)
